@@ -147,4 +147,320 @@ C07_MustAccept(s0) ==
        /\ sa.host # <<>> /\ ~HasAny(sa.host, {LBR, RBR}) /\ ~Has(a.authority, LBR) /\ ~Has(a.authority, RBR)
        /\ AllLegalFrom(Unreserved \cup SubDelims, sa.host, 1)
        /\ (sa.port = <<>> \/ (AllDigits(sa.port) /\ Len(sa.port) <= 5 /\ DigitsVal(sa.port) <= 65535))
+
+\* ======================================================================== C01
+\* an accessor that raises is C19's subject, not a well-formedness failure
+OptWellFormed(c, f) == ~Ok(f) \/ V(f) = None \/ WellFormed(c, V(f)[1])
+C01_Ascii(o) == Ok(o.str) => IsAscii(V(o.str))
+C01_Components(o) ==
+  /\ OptWellFormed("user", o.raw_user)
+  /\ OptWellFormed("password", o.raw_password)
+  /\ Ok(o.raw_path) /\ WellFormed("path", V(o.raw_path))
+  /\ Ok(o.raw_query_string) /\ WellFormed("query", V(o.raw_query_string))
+  /\ Ok(o.raw_fragment) /\ WellFormed("fragment", V(o.raw_fragment))
+\* the scheme is outside C01 (C03 speaks of "RFC-valid scheme"): judged only when it is valid or empty
+C01_SchemeSane(o) == Scheme5(o) = <<>> \/ SchemeGrammar(Scheme5(o))
+
+\* ======================================================================== C02
+Meaning(k, requote, in, out) == HasSurrogate(in) \/ SameMeaning(k, requote, in, out)
+OptMeaning(k, in, f) ==        \* in: supplied text; f: observed optional raw accessor
+  HasSurrogate(in) \/
+  (Ok(f) /\ (IF in = <<>> THEN (V(f) = None \/ V(f) = Some(<<>>)) ELSE V(f) # None /\ Meaning(k, FALSE, in, V(f)[1])))
+IsSuffixOf(a, b) == Len(a) <= Len(b) /\ From(b, Len(b) - Len(a) + 1) = a
+HasDotSeg(p) == \E seg \in Range(Split(p, SLASH)) : seg \in {<<DOT>>, <<DOT, DOT>>}
+Rooted(v) == IF v # <<>> /\ v[1] # SLASH THEN <<SLASH>> \o v ELSE v
+
+C02_Ctor(s, o) ==
+  \E gray \in BOOLEAN :
+    LET a  == AppendixBWith(StripWhatwg(s), gray)
+        sa == SplitAuthority(a.authority)
+        so == SplitAuthority(Netloc5(o)) IN
+      /\ (a.authority # <<>> /\ ~sa.oddBrackets /\ Netloc5(o) # <<>>) =>
+            /\ SameOrBothEmpty("user", sa.user, so.user)
+            /\ SameOrBothEmpty("password", sa.password, so.password)
+      /\ ~(a.authority # <<>> /\ HasDotish(a.path)) => SameOrBothEmpty("path", a.path, Path5(o))
+      /\ SameOrBothEmpty("query", a.query, Query5(o))
+      /\ SameOrBothEmpty("fragment", a.fragment, Frag5(o))
+
+\* pairs of a query argument whose values are all plain strings: <<key text, value text>>
+AllStrPairs(q) == \A i \in 1..Len(q.pairs) : q.pairs[i][2].t = "str"
+StrPairs(q) == [i \in 1..Len(q.pairs) |-> <<q.pairs[i][1], q.pairs[i][2].s>>]
+RawPieces(raw) == LET ps == Split(raw, AMP) IN
+   IF raw = <<>> THEN <<>> ELSE [i \in 1..Len(ps) |-> LET pr == Partition(ps[i], EQ) IN <<pr[1], pr[3]>>]
+C02_PairsKept(pairs, raw) ==
+  LET pc == RawPieces(raw) IN
+  /\ Len(pc) = Len(pairs)
+  /\ \A i \in 1..Len(pairs) : Meaning("qpart", FALSE, pairs[i][1], pc[i][1]) /\ Meaning("qpart", FALSE, pairs[i][2], pc[i][2])
+
+C02_Build(kw, o) ==
+  /\ ("user" \in DOMAIN kw /\ Netloc5(o) # <<>> /\ kw.user # None) => OptMeaning("user", kw.user[1], o.raw_user)
+  /\ ("password" \in DOMAIN kw /\ Netloc5(o) # <<>> /\ kw.password # None) =>
+        (Ok(o.raw_password) /\ V(o.raw_password) # None /\ Meaning("password", FALSE, kw.password[1], V(o.raw_password)[1]))
+  /\ ("path" \in DOMAIN kw /\ ~(Netloc5(o) # <<>> /\ Has(kw.path, DOT))) => Meaning("path", FALSE, kw.path, Path5(o))
+  /\ ("query_string" \in DOMAIN kw /\ "query" \notin DOMAIN kw) => Meaning("query", FALSE, kw.query_string, Query5(o))
+  /\ ("fragment" \in DOMAIN kw) => Meaning("fragment", FALSE, kw.fragment, Frag5(o))
+  /\ ("query" \in DOMAIN kw /\ kw.query.form \in {"mapping", "pairs", "tuplepairs", "multidict"} /\ AllStrPairs(kw.query)
+        /\ kw.query.pairs # <<>>) => C02_PairsKept(StrPairs(kw.query), Query5(o))
+
+C02_Modifier(act, args, self, o) ==
+  CASE act = "with_user" -> (args.v # None => OptMeaning("user", args.v[1], o.raw_user))
+    [] act = "with_password" -> (args.v # None =>
+          (Ok(o.raw_password) /\ V(o.raw_password) # None /\ Meaning("password", FALSE, args.v[1], V(o.raw_password)[1])))
+    [] act = "with_fragment" -> (args.v # None => Meaning("fragment", FALSE, args.v[1], Frag5(o)))
+    [] act = "with_path" -> ((~args.encoded /\ ~(Netloc5(o) # <<>> /\ Has(args.v, DOT))) =>
+          Meaning("path", FALSE, Rooted(args.v), Path5(o)))
+    [] act = "with_name" -> (Ok(o.raw_name) /\ Meaning("path", FALSE, args.v, V(o.raw_name)))
+    [] act = "with_suffix" -> (Ok(o.raw_name) /\
+          (HasSurrogate(args.v) \/ IsSuffixOf(SkelIn("path", FALSE, args.v), SkelOut("path", V(o.raw_name)))))
+    [] act = "truediv" -> ((~Has(args.v, DOT)) =>
+          (HasSurrogate(args.v) \/ IsSuffixOf(SkelIn("path", FALSE, args.v), SkelOut("path", Path5(o)))))
+    [] act = "joinpath" -> ((~args.encoded /\ args.vs # <<>> /\ \A i \in 1..Len(args.vs) : ~Has(args.vs[i], DOT)) =>
+          LET v == Last(args.vs) IN
+          (HasSurrogate(v) \/ IsSuffixOf(SkelIn("path", FALSE, v), SkelOut("path", Path5(o)))))
+    [] act = "with_query" ->
+          (IF args.q.form = "str" THEN Meaning("query", FALSE, args.q.s, Query5(o))
+           ELSE IF args.q.form # "none" /\ AllStrPairs(args.q) THEN C02_PairsKept(StrPairs(args.q), Query5(o))
+           ELSE TRUE)
+    [] act = "extend_query" ->
+          (IF args.q.form = "str" THEN (HasSurrogate(args.q.s) \/ IsSuffixOf(SkelIn("query", FALSE, args.q.s), SkelOut("query", Query5(o))))
+           ELSE TRUE)
+    [] OTHER -> TRUE
+C02_ModifierApplies(act) == act \in {"with_user", "with_password", "with_fragment", "with_path", "with_name", "with_suffix",
+                                     "truediv", "joinpath", "with_query", "extend_query"}
+
+\* ======================================================================== C06
+\* an unparseable port makes every authority accessor raise (C19's subject): vacuous then
+OptDecode(rawf, f) == ~Ok(rawf) \/ (Ok(f) /\ V(f) = (IF V(rawf) = None THEN None ELSE Some(DecodePlain(V(rawf)[1]))))
+SeqDecode(rawf, f) == Ok(rawf) /\ Ok(f) /\ Len(V(f)) = Len(V(rawf)) /\ \A i \in 1..Len(V(f)) : V(f)[i] = DecodePlain(V(rawf)[i])
+C06_User(o)     == OptDecode(o.raw_user, o.user)
+C06_Password(o) == OptDecode(o.raw_password, o.password)
+C06_Path(o)     == Ok(o.path) /\ V(o.path) = DecodePlain(V(o.raw_path))
+C06_PathSafe(o) == Ok(o.path_safe) /\ IsDecodePathSafe(V(o.raw_path), V(o.path_safe))
+C06_Parts(o)    == SeqDecode(o.raw_parts, o.parts)
+C06_Name(o)     == Ok(o.name) /\ Ok(o.raw_name) /\ V(o.name) = DecodePlain(V(o.raw_name))
+C06_Suffix(o)   == Ok(o.suffix) /\ Ok(o.raw_suffix) /\ V(o.suffix) = DecodePlain(V(o.raw_suffix))
+                   /\ SeqDecode(o.raw_suffixes, o.suffixes)
+C06_Fragment(o) == Ok(o.fragment) /\ V(o.fragment) = DecodePlain(V(o.raw_fragment))
+C06_QueryString(o) == Ok(o.query_string) /\ IsDecodeQueryString(V(o.raw_query_string), V(o.query_string))
+C06_Query(o)    == Ok(o.query) /\ V(o.query) = QueryPairs(V(o.raw_query_string))
+\* trigger of Dev_QueryDecodeReplaces: some escape run in the raw query is not well-formed UTF-8
+RECURSIVE HasBadEscapeRun(_, _)
+HasBadEscapeRun(t, i) ==
+  IF i > Len(t) THEN FALSE
+  ELSE IF IsPctAt(t, i) THEN
+       LET n == Utf8Len(EscRun(t, i, 4)) IN IF n = 0 THEN TRUE ELSE HasBadEscapeRun(t, i + 3 * n)
+  ELSE HasBadEscapeRun(t, i + 1)
+
+\* read-back of supplied decoded values
+NoDotUnderAuthority(o, v) == ~(Netloc5(o) # <<>> /\ HasDotSeg(v))
+C06_ReadBack(act, args, o) ==
+  CASE act = "with_user" -> ((args.v # None /\ ~HasSurrogate(args.v[1])) =>
+          (Ok(o.user) /\ V(o.user) = (IF args.v[1] = <<>> THEN None ELSE args.v)))
+    [] act = "with_password" -> ((args.v # None /\ ~HasSurrogate(args.v[1])) => (Ok(o.password) /\ V(o.password) = args.v))
+    [] act = "with_fragment" -> ((args.v # None /\ ~HasSurrogate(args.v[1])) => (Ok(o.fragment) /\ V(o.fragment) = args.v[1]))
+    [] act = "with_path" -> ((~args.encoded /\ ~HasSurrogate(args.v) /\ NoDotUnderAuthority(o, args.v)) =>
+          (Ok(o.path) /\ V(o.path) = (IF args.v = <<>> /\ Netloc5(o) # <<>> THEN <<SLASH>> ELSE Rooted(args.v))))
+    [] act = "with_name" -> (~HasSurrogate(args.v) => (Ok(o.name) /\ V(o.name) = args.v))
+    [] act = "truediv" -> ((~HasSurrogate(args.v) /\ ~Has(args.v, SLASH) /\ args.v \notin {<<DOT>>, <<DOT, DOT>>}) =>
+          (Ok(o.name) /\ V(o.name) = args.v))
+    [] act = "with_query" -> ((args.q.form \in {"mapping", "pairs", "tuplepairs", "multidict", "kwargs"} /\ AllStrPairs(args.q)
+                               /\ \A i \in 1..Len(args.q.pairs) : ~HasSurrogate(args.q.pairs[i][1]) /\ ~HasSurrogate(args.q.pairs[i][2].s)) =>
+          (Ok(o.query) /\ V(o.query) = StrPairs(args.q)))
+    [] OTHER -> TRUE
+C06_ReadBackApplies(act) == act \in {"with_user", "with_password", "with_fragment", "with_path", "with_name", "truediv", "with_query"}
+C06_ReadBackBuild(kw, o) ==
+  /\ ("user" \in DOMAIN kw /\ Netloc5(o) # <<>> /\ kw.user # None /\ ~HasSurrogate(kw.user[1])) =>
+        (Ok(o.user) /\ V(o.user) = (IF kw.user[1] = <<>> THEN None ELSE kw.user))
+  /\ ("password" \in DOMAIN kw /\ Netloc5(o) # <<>> /\ kw.password # None /\ ~HasSurrogate(kw.password[1])) =>
+        (Ok(o.password) /\ V(o.password) = kw.password)
+  /\ ("path" \in DOMAIN kw /\ ~HasSurrogate(kw.path) /\ NoDotUnderAuthority(o, kw.path)) =>
+        (Ok(o.path) /\ V(o.path) = (IF kw.path = <<>> /\ Netloc5(o) # <<>> THEN <<SLASH>> ELSE kw.path))
+  /\ ("fragment" \in DOMAIN kw /\ ~HasSurrogate(kw.fragment)) => (Ok(o.fragment) /\ V(o.fragment) = kw.fragment)
+  /\ ("query" \in DOMAIN kw /\ kw.query.form \in {"mapping", "pairs", "tuplepairs", "multidict"} /\ AllStrPairs(kw.query)
+        /\ \A i \in 1..Len(kw.query.pairs) : ~HasSurrogate(kw.query.pairs[i][1]) /\ ~HasSurrogate(kw.query.pairs[i][2].s)) =>
+        (Ok(o.query) /\ V(o.query) = StrPairs(kw.query))
+
+\* ======================================================================== C11
+SameF(a, b, f) == Ok(a[f]) /\ Ok(b[f]) /\ V(a[f]) = V(b[f])
+SameAuthorityBut(S, O, skip) ==
+  \A f \in ({"raw_user", "raw_password", "host_subcomponent", "explicit_port"} \ skip) : SameF(S, O, f)
+SameTail(S, O) == Path5(O) = Path5(S) /\ Query5(O) = Query5(S) /\ Frag5(O) = Frag5(S)
+OptTextArg(v, k, f) ==    \* argument option v reads back from optional raw accessor f as its canonical form
+  IF v = None THEN Ok(f) /\ V(f) = None ELSE OptMeaning(k, v[1], f)
+C11_Frame(act, args, S, O) ==
+  CASE act = "with_scheme" -> Scheme5(O) = LowerS(args.v) /\ Netloc5(O) = Netloc5(S) /\ SameTail(S, O)
+    [] act = "with_user" ->
+         /\ Scheme5(O) = Scheme5(S) /\ SameTail(S, O) /\ SameAuthorityBut(S, O, {"raw_user", "raw_password"})
+         /\ OptTextArg(args.v, "user", O.raw_user)
+         /\ (IF args.v = None THEN Ok(O.raw_password) /\ V(O.raw_password) = None ELSE SameF(S, O, "raw_password"))
+    [] act = "with_password" ->
+         /\ Scheme5(O) = Scheme5(S) /\ SameTail(S, O) /\ SameAuthorityBut(S, O, {"raw_password"})
+         /\ (IF args.v = None THEN Ok(O.raw_password) /\ V(O.raw_password) = None
+             ELSE HasSurrogate(args.v[1]) \/ (Ok(O.raw_password) /\ V(O.raw_password) # None
+                                              /\ SameMeaning("password", FALSE, args.v[1], V(O.raw_password)[1])))
+    [] act = "with_host" -> Scheme5(O) = Scheme5(S) /\ SameTail(S, O) /\ SameAuthorityBut(S, O, {"host_subcomponent"})
+    [] act = "with_port" ->
+         /\ Scheme5(O) = Scheme5(S) /\ SameTail(S, O) /\ SameAuthorityBut(S, O, {"explicit_port"})
+         /\ Ok(O.explicit_port)
+         /\ (IF args.v.t = "none" THEN V(O.explicit_port) = None
+             ELSE args.v.t = "int" /\ Len(args.v.s) <= 5 /\ AllDigits(args.v.s) /\ V(O.explicit_port) = Some(DigitsVal(args.v.s)))
+    [] act = "with_fragment" ->
+         /\ Scheme5(O) = Scheme5(S) /\ Netloc5(O) = Netloc5(S) /\ Path5(O) = Path5(S) /\ Query5(O) = Query5(S)
+         /\ (IF args.v = None THEN Frag5(O) = <<>> ELSE Meaning("fragment", FALSE, args.v[1], Frag5(O)))
+    [] act \in {"with_query", "extend_query", "update_query", "without_query_params", "mod"} ->
+         Scheme5(O) = Scheme5(S) /\ Netloc5(O) = Netloc5(S) /\ Path5(O) = Path5(S) /\ Frag5(O) = Frag5(S)
+    [] act \in {"with_path", "with_name", "with_suffix"} ->
+         /\ Scheme5(O) = Scheme5(S) /\ Netloc5(O) = Netloc5(S)
+         /\ Query5(O) = (IF args.keep_query THEN Query5(S) ELSE <<>>)
+         /\ Frag5(O) = (IF args.keep_fragment THEN Frag5(S) ELSE <<>>)
+    [] act \in {"truediv", "joinpath", "parent"} ->
+         Scheme5(O) = Scheme5(S) /\ Netloc5(O) = Netloc5(S) /\ Query5(O) = <<>> /\ Frag5(O) = <<>>
+    [] act = "origin" ->
+         /\ Scheme5(O) = Scheme5(S) /\ SameAuthorityBut(S, O, {"raw_user", "raw_password"})
+         /\ Ok(O.raw_user) /\ V(O.raw_user) = None /\ Ok(O.raw_password) /\ V(O.raw_password) = None
+         /\ Path5(O) = <<>> /\ Query5(O) = <<>> /\ Frag5(O) = <<>>
+    [] act = "relative" -> Scheme5(O) = <<>> /\ Netloc5(O) = <<>> /\ SameTail(S, O)
+    [] OTHER -> TRUE
+C11_Applies(act) == act \in {"with_scheme", "with_user", "with_password", "with_host", "with_port", "with_fragment", "with_query",
+   "extend_query", "update_query", "without_query_params", "mod", "with_path", "with_name", "with_suffix", "truediv",
+   "joinpath", "parent", "origin", "relative"}
+
+\* ======================================================================== C15
+\* section 5.2.4 on a list of (decoded) segments: non-dot segments are replaced by placeholders,
+\* the literal buffer algorithm is run on the rooted path, and the placeholders are mapped back
+RdsSegs(segs) ==
+  LET enc == [i \in 1..Len(segs) |->
+                 IF segs[i] \in {<<DOT>>, <<DOT, DOT>>} THEN segs[i] ELSE IF segs[i] = <<>> THEN <<>> ELSE <<1000000 + i>>]
+      outp == RemoveDotSegments(<<SLASH>> \o JoinWith(enc, SLASH))
+      outs == IF outp = <<>> THEN <<>> ELSE Split(Tail(outp), SLASH) IN
+  [i \in 1..Len(outs) |-> IF outs[i] # <<>> /\ outs[i][1] >= 1000000 THEN segs[outs[i][1] - 1000000] ELSE outs[i]]
+DotDecode(p) ==      \* %2E / %2e spelled as '.'
+  LET F[i \in 1..(Len(p) + 1)] ==
+        IF i > Len(p) THEN <<>>
+        ELSE IF IsPctAt(p, i) /\ PctByte(p, i) = DOT THEN <<DOT>> \o F[i + 3] ELSE <<p[i]>> \o F[i + 1]
+  IN F[1]
+C15_NoDots(O) == Netloc5(O) # <<>> => ~HasDotSeg(Path5(O))
+\* old segments of the receiver for "/" and joinpath: decoded parts without the root, one trailing empty dropped
+OldSegs(S) == LET p == V(S.parts)
+                  q == IF p # <<>> /\ p[1] = <<SLASH>> THEN Tail(p) ELSE p
+              IN IF q # <<>> /\ Last(q) = <<>> THEN Front(q) ELSE q
+NewSegs(vs) == Flat([i \in 1..Len(vs) |->
+                 LET sg == Split(vs[i], SLASH) IN IF i < Len(vs) /\ Last(sg) = <<>> THEN Front(sg) ELSE sg])
+PathEq(a, b) == a = b \/ {a, b} = {<<>>, <<SLASH>>}
+C15_Expected(act, args, S, O) ==
+  CASE act = "build" -> (("path" \in DOMAIN args.kw /\ ~HasSurrogate(args.kw.path)) =>
+           (Ok(O.path) /\ PathEq(V(O.path), RemoveDotSegments(args.kw.path))))
+    [] act = "with_path" -> ((~args.encoded /\ ~HasSurrogate(args.v)) =>
+           (Ok(O.path) /\ PathEq(V(O.path), RemoveDotSegments(Rooted(args.v)))))
+    [] act = "ctor" -> (\E gray \in BOOLEAN :
+           LET a == AppendixBWith(StripWhatwg(args.s), gray) IN
+           HasSurrogate(a.path) \/ SkelOut("path", Path5(O)) = SkelOut("path", RemoveDotSegments(DotDecode(a.path)))
+                                \/ (a.path = <<>> /\ Path5(O) = <<>>))
+    [] act \in {"truediv", "joinpath"} ->
+           LET vs == IF act = "truediv" THEN <<args.v>> ELSE args.vs IN
+           ((\A i \in 1..Len(vs) : ~HasSurrogate(vs[i])) /\ Ok(S.parts)) =>
+           (Ok(O.path) /\ PathEq(V(O.path), <<SLASH>> \o JoinWith(RdsSegs(OldSegs(S) \o NewSegs(vs)), SLASH)))
+    [] OTHER -> TRUE
+C15_ExpectedApplies(act, args, O) ==
+  /\ Netloc5(O) # <<>>
+  /\ \/ act \in {"build", "with_path", "truediv"} \/ (act = "ctor" /\ ~args.encoded) \/ (act = "joinpath" /\ ~args.encoded)
+\* without an authority dot segments are kept verbatim
+C15_Verbatim(act, args, O) ==
+  CASE act = "build" -> (("path" \in DOMAIN args.kw /\ ~HasSurrogate(args.kw.path)) => (Ok(O.path) /\ V(O.path) = args.kw.path))
+    [] act = "with_path" -> ((~args.encoded /\ ~HasSurrogate(args.v)) => (Ok(O.path) /\ V(O.path) = Rooted(args.v)))
+    [] OTHER -> TRUE
+
+\* ======================================================================== C14
+RefOf(o) == [scheme |-> Scheme5(o), hasAuth |-> Netloc5(o) # <<>>, authority |-> Netloc5(o), path |-> Path5(o),
+             hasQuery |-> Query5(o) # <<>>, query |-> Query5(o), hasFragment |-> Frag5(o) # <<>>, fragment |-> Frag5(o)]
+SameParts(O, R) == Scheme5(O) = Scheme5(R) /\ Netloc5(O) = Netloc5(R) /\ Path5(O) = Path5(R)
+                   /\ Query5(O) = Query5(R) /\ Frag5(O) = Frag5(R)
+\* "base whose scheme supports relative resolution": urllib's uses_relative, supplied as environment data
+C14_RefUnchangedCase(S, R, usesRelative) ==
+  LET scheme == IF Scheme5(R) # <<>> THEN Scheme5(R) ELSE Scheme5(S) IN
+  scheme # Scheme5(S) \/ scheme \notin usesRelative
+\* where RFC 3986 5.2 is defined or its extension unambiguous: the base has a scheme, or an authority, or a rooted path
+C14_Judged(S) == Scheme5(S) # <<>> \/ Netloc5(S) # <<>> \/ (Path5(S) # <<>> /\ Path5(S)[1] = SLASH)
+C14_IsTransform(S, R, O) ==
+  LET t == Transform(RefOf(S), RefOf(R), FALSE) IN
+  /\ Scheme5(O) = t.scheme
+  /\ Netloc5(O) = t.authority
+  /\ (Path5(O) = t.path \/ (t.hasAuth /\ {Path5(O), t.path} = {<<>>, <<SLASH>>}))
+  /\ Query5(O) = t.query
+  /\ Frag5(O) = t.fragment
+
+\* ======================================================================== C03
+ValidHostText(h) == \A i \in 1..Len(h) : h[i] \in Unreserved \cup SubDelims \cup {PCT, COLON}
+C03_ValidInput(O) ==
+  /\ (Scheme5(O) = <<>> \/ SchemeGrammar(Scheme5(O)))
+  /\ Ok(O.raw_host) /\ (V(O.raw_host) = None \/ ValidHostText(V(O.raw_host)[1]))
+C03_Fields == {"str", "scheme", "raw_user", "user", "raw_password", "password", "raw_host", "host", "port",
+               "raw_path", "path", "raw_query_string", "query_string", "query", "raw_fragment", "fragment"}
+C03_FixedPoint(O, RP) == Ok(RP) /\ \A f \in C03_Fields : RP.ok[f] = O[f]
+C03_DiffFields(O, RP) == IF ~Ok(RP) THEN {"reparse-raises"} ELSE {f \in C03_Fields : RP.ok[f] # O[f]}
+
+\* ======================================================================== C09
+C09_Fields == {"str", "val", "scheme", "raw_authority", "authority", "raw_user", "user", "raw_password", "password",
+               "raw_host", "host", "host_subcomponent", "host_port_subcomponent", "explicit_port", "port", "raw_path", "path",
+               "path_safe", "raw_query_string", "query_string", "query", "raw_fragment", "fragment", "raw_parts", "parts",
+               "raw_name", "name", "raw_suffix", "suffix", "raw_suffixes", "suffixes", "raw_path_qs", "path_qs", "absolute",
+               "is_default_port", "bool", "human_repr"}
+C09_TwinDiff(O, tw) == IF ~Ok(tw) THEN {"twin-raises"}
+                       ELSE {f \in C09_Fields : tw.ok[f] # O[f]} \cup (IF tw.eq THEN {} ELSE {"=="}) \cup (IF tw.hash_eq THEN {} ELSE {"hash"})
+
+\* ======================================================================== C17
+C17_PortFallback(O) ==
+  Ok(O.explicit_port) =>
+    /\ Ok(O.port) /\ V(O.port) = (IF V(O.explicit_port) # None THEN V(O.explicit_port) ELSE DefaultPort(Scheme5(O)))
+    /\ Ok(O.is_default_port) /\ V(O.is_default_port) =
+         (IF V(O.explicit_port) = None THEN Netloc5(O) # <<>> ELSE V(O.explicit_port) = DefaultPort(Scheme5(O)))
+C17_Range(O) == Ok(O.explicit_port) => (V(O.explicit_port) = None \/ V(O.explicit_port)[1] \in 0..65535)
+\* str() and host_port_subcomponent show the port exactly when it is written and not the scheme default
+ShowsPort(text, p) == IsSuffixOf(<<COLON>> \o NatText(p), text)
+C17_StrPort(O) ==
+  (Ok(O.explicit_port) /\ Ok(O.str) /\ Netloc5(O) # <<>> /\ ~SplitAuthority(Netloc5(O)).oddBrackets
+   /\ (Scheme5(O) = <<>> \/ SchemeGrammar(Scheme5(O)))
+   \* port spellings int() tolerates but the RFC does not ("+80", "8_0") are unspecified (C07 reading d)
+   /\ LET pt == SplitAuthority(Netloc5(O)).port IN pt = <<>> \/ AllDigits(pt)) =>
+    LET b == AppendixBWith(V(O.str), TRUE)
+        sp == SplitAuthority(b.authority)
+        ep == V(O.explicit_port) IN
+    IF ep = None \/ ep = DefaultPort(Scheme5(O)) THEN sp.port = <<>>
+    ELSE AllDigits(sp.port) /\ DigitsVal(sp.port) = ep[1]
+C17_HostPortSub(O) ==
+  (Ok(O.explicit_port) /\ Ok(O.host_port_subcomponent) /\ V(O.host_port_subcomponent) # None /\ Ok(O.host_subcomponent)
+   /\ V(O.host_subcomponent) # None) =>
+    LET hp == V(O.host_port_subcomponent)[1]
+        h  == RStripSet(V(O.host_subcomponent)[1], {DOT})
+        ep == V(O.explicit_port) IN
+    IF ep = None \/ ep = DefaultPort(Scheme5(O)) THEN hp = h ELSE hp = h \o <<COLON>> \o NatText(ep[1])
+\* with_port: accept/clear/reject table
+C17_WithPort(args, S, out) ==
+  LET v == args.v IN
+  IF ~Ok(S.explicit_port) THEN TRUE      \* receiver with an unparseable port (encoded=True): outside the table
+  ELSE IF Netloc5(S) = <<>> THEN ~Ok(out) /\ out.exc \in {"ValueError", "TypeError"}
+  ELSE IF v.t = "none" THEN Ok(out) /\ Ok(out.ok.explicit_port) /\ V(out.ok.explicit_port) = None
+  ELSE IF v.t = "int" THEN
+       (IF v.s[1] # 45 /\ Len(v.s) <= 5 /\ DigitsVal(v.s) <= 65535
+        THEN Ok(out) /\ Ok(out.ok.explicit_port) /\ V(out.ok.explicit_port) = Some(DigitsVal(v.s))
+        ELSE ~Ok(out) /\ out.exc = "ValueError")
+  ELSE ~Ok(out) /\ out.exc \in {"TypeError", "ValueError"}
+
+\* build(port=...): in range accepted (a default port is not written), anything else rejected
+C17_BuildPort(kw, out) ==
+  ("port" \in DOMAIN kw /\ "host" \in DOMAIN kw /\ kw.host # <<>> /\ "authority" \notin DOMAIN kw) =>
+    LET v == kw.port IN
+    IF v.t = "none" THEN TRUE
+    ELSE IF v.t = "int" /\ v.s[1] # 45 /\ Len(v.s) <= 5 /\ DigitsVal(v.s) <= 65535 THEN
+         (Ok(out) => (Ok(out.ok.explicit_port) /\
+                      V(out.ok.explicit_port) = (IF Some(DigitsVal(v.s)) = DefaultPort(Scheme5(out.ok)) THEN None ELSE Some(DigitsVal(v.s)))))
+    ELSE ~Ok(out) /\ out.exc \in {"ValueError", "TypeError"}
+\* does a '..' occur while the segment stack (every non-dot segment, empty ones included, is a push) is empty?
+RECURSIVE ClimbsFrom(_, _, _)
+ClimbsFrom(segs, i, depth) ==
+  IF i > Len(segs) THEN FALSE
+  ELSE IF segs[i] = <<DOT, DOT>> THEN (depth = 0 \/ ClimbsFrom(segs, i + 1, depth - 1))
+  ELSE IF segs[i] = <<DOT>> THEN ClimbsFrom(segs, i + 1, depth)
+  ELSE ClimbsFrom(segs, i + 1, depth + 1)
+ClimbsAboveRoot(segs) == ClimbsFrom(segs, 1, 0)
 =============================================================================
